@@ -572,8 +572,9 @@ func (m *Manager) rotateWAL() error {
 		newWAL.UpdateNextSequence(currentWAL.GetNextSequence())
 	}
 
-	// Store the old WAL for proper closure
-	oldWAL := m.wal
+	// Store the old WAL for proper closure (read atomically above: rotation
+	// runs from the flush path without m.mu)
+	oldWAL := currentWAL
 
 	// Atomically update the WAL reference using atomic pointer operations
 	atomic.StorePointer((*unsafe.Pointer)(unsafe.Pointer(&m.wal)), unsafe.Pointer(newWAL))
